@@ -150,12 +150,13 @@ def install_recorder():
 
         @functools.wraps(orig)
         def w(self, *a, **kw):
-            try:
-                rec = make(self, a, kw)
-                if rec is not None:
-                    CALLS.append(rec)
-            except Exception:  # noqa: BLE001
-                pass
+            if not _SUSPEND[0]:
+                try:
+                    rec = make(self, a, kw)
+                    if rec is not None:
+                        CALLS.append(rec)
+                except Exception:  # noqa: BLE001
+                    pass
             return orig(self, *a, **kw)
 
         setattr(SI, meth, w)
@@ -175,6 +176,94 @@ def install_recorder():
 
 def reset_calls():
     del CALLS[:]
+
+
+_SUSPEND = [False]
+
+
+def _sgn(v, n):
+    return v - (1 << n) if v >> (n - 1) else v
+
+
+def native_unsound(op, a, b):
+    """a recorded transfer-function call re-run NATIVELY on its concrete operands and compared with the member sets by enumeration.
+    a: (bits, stride, lb, ub); b: the same, ("param", ...) or None.  True: this call loses a concrete result (or raises); False: sound on
+    these operands; None: not decided here (query operations, too many member pairs)."""
+    from claripy.backends.backend_vsa.bool_result import BoolResult
+    from claripy.backends.backend_vsa.strided_interval import StridedInterval as SI
+
+    from .p_vsa import BIN, UN, py_members
+
+    na = a[0]
+    ma = py_members(*a)
+    A_ = SI(bits=na, stride=a[1], lower_bound=a[2], upper_bound=a[3])
+    m = (1 << na) - 1
+    _SUSPEND[0] = True
+    try:
+        def rmem(r):
+            return set() if r.is_empty else py_members(r.bits, r.stride, r.lower_bound, r.upper_bound)
+
+        if b is not None and b[0] == "param":
+            if op == "zext":
+                r = A_.zero_extend(b[1])
+                return r.bits != b[1] or not ma <= rmem(r)
+            if op == "sext":
+                r = A_.sign_extend(b[1])
+                return r.bits != b[1] or not {_sgn(x, na) & ((1 << b[1]) - 1) for x in ma} <= rmem(r)
+            if op == "extract":
+                hi, lo = b[1], b[2]
+                r = A_.extract(hi, lo)
+                return not {(x >> lo) & ((1 << (hi - lo + 1)) - 1) for x in ma} <= rmem(r)
+            return None
+        if b is None:
+            if op in UN:
+                r = UN[op][0](A_)
+                want = {((-x) & m) if op != "not" else ((~x) & m) for x in ma}
+                return not want <= rmem(r)
+            return None
+        nb = b[0]
+        mb = py_members(*b)
+        if len(ma) * len(mb) > 70000:
+            return None
+        B_ = SI(bits=nb, stride=b[1], lower_bound=b[2], upper_bound=b[3])
+        if op in ("union", "widen", "intersection"):
+            if na != nb:
+                return None
+            r = getattr(A_, op)(B_)
+            rm = rmem(r)
+            return not ((ma & mb) <= rm) if op == "intersection" else not ((ma | mb) <= rm)
+        cmp_ = {"ULT": lambda x, y: x < y, "ULE": lambda x, y: x <= y, "UGT": lambda x, y: x > y, "UGE": lambda x, y: x >= y,
+                "SLT": lambda x, y: _sgn(x, na) < _sgn(y, nb), "SLE": lambda x, y: _sgn(x, na) <= _sgn(y, nb),
+                "SGT": lambda x, y: _sgn(x, na) > _sgn(y, nb), "SGE": lambda x, y: _sgn(x, na) >= _sgn(y, nb), "eq": lambda x, y: x == y}
+        if op in cmp_:
+            r = getattr(A_, op)(B_)
+            seen = {cmp_[op](x, y) for x in ma for y in mb}
+            return (True in seen and not BoolResult.has_true(r)) or (False in seen and not BoolResult.has_false(r))
+        if op not in BIN:
+            return None
+
+        def sdiv(x, y):
+            p, q = _sgn(x, na), _sgn(y, nb)
+            d = abs(p) // abs(q)
+            return (-d if (p < 0) != (q < 0) else d) & m
+
+        ref = {"add": lambda x, y: (x + y) & m, "sub": lambda x, y: (x - y) & m, "mul": lambda x, y: (x * y) & m, "udiv": lambda x, y: x // y, "sdiv": sdiv,
+               "mod": lambda x, y: x % y, "and": lambda x, y: x & y, "or": lambda x, y: x | y, "xor": lambda x, y: x ^ y,
+               "shl": lambda x, y: (x << y) & m if y < na else 0, "lshr": lambda x, y: x >> y if y < na else 0,
+               "ashr": lambda x, y: (_sgn(x, na) >> min(y, na)) & m, "concat": lambda x, y: (x << nb) | y}[op]
+        r = BIN[op][0](A_, B_)
+        rm = rmem(r)
+        for x in ma:
+            for y in mb:
+                if op in ("udiv", "sdiv", "mod") and y == 0:
+                    continue
+                if ref(x, y) not in rm:
+                    return True
+        return False
+    except Exception:  # noqa: BLE001
+        return True
+    finally:
+        _SUSPEND[0] = False
 
 
 def _family_has_findings(op):
@@ -219,8 +308,23 @@ def attribute(ev):
                 bt = (ev(b[1]) & m, ev(b[2]) & m, ev(b[3]) & m)
         tab = T.get(f"C21/si:{name}:{n}") or T.get(f"C22/si:{name}:{n}")
         if tab is None or bt == "mixed":
-            if _family_has_findings(op):
-                return f"{name} at width {n} (no exact table; the operation has recorded findings)"
+            if not _family_has_findings(op):
+                continue
+            # no exact table for this width / these parameters: the recorded call is re-run natively on its concrete operands and
+            # compared with the member sets; only a call that really loses a value attributes the failure to the interval-level finding
+            if b is not None and b[0] == "param":
+                bb = b
+            elif b is not None and b[0] == "int":
+                bb = (n, 0, ev(b[1]) & m, ev(b[1]) & m)
+            elif b is not None:
+                mb_ = (1 << b[0]) - 1
+                bb = (b[0], ev(b[1]) & mb_, ev(b[2]) & mb_, ev(b[3]) & mb_)
+            else:
+                bb = None
+            u = native_unsound(op, (n, *at), bb)
+            if u or (u is None and n > 8):
+                return f"{name} at width {n} a={at}: " + ("this call loses a concrete result (checked natively by enumeration)" if u else
+                                                           "no exact table and too wide to enumerate; the operation has recorded findings")
             continue
         if not tab["count"]:
             continue
